@@ -36,7 +36,12 @@ AcceptAt(s, ev) ==
   \/ ev.op = "serialize" /\ ev.post = s /\ (BF!ValidContent(s) => ev.res.ok) /\ (ev.res.ok => SerializeStructOK(s, ev.res.v))
   \/ ev.op = "session" /\ "steps" \in DOMAIN ev.res /\ SessionAllowed(s, ev.a, ev.steps, ev.res.steps, ev.post)
   \/ ev.op \notin {"serialize", "session", "reset"} /\ Allowed(s, ev, [res |-> ev.res, pos |-> ev.pos, st |-> ev.post])
-Accept(ev) == AcceptAt(st[ObjOf(ev)], ev)
+\* assert_equal_regions against the OTHER live archive (twin histories only)
+AcceptTwin(ev) ==
+  LET o == ObjOf(ev) IN
+  /\ ev.post = st[o]
+  /\ \E out \in EqualRegions2Outcomes(st[o], st[1 - o], ev.a, ev.t, ev.n) : out.res = ev.res
+Accept(ev) == IF ev.op = "equal_regions2" THEN AcceptTwin(ev) ELSE AcceptAt(st[ObjOf(ev)], ev)
 \* serialize events whose image is structurally fine but not the canonical image
 NonCanonical(ev) == ev.op = "serialize" /\ ev.res.ok /\ Accept(ev) /\ ~SerializeCanonOK(st[ObjOf(ev)], ev.res.v)
 
